@@ -285,6 +285,14 @@ func (c *Checker) checkPattern(node ast.PatternNode, matchedType types.Type) (re
 		return c.checkScopedMacroCallNodeForPattern(n, matchedType)
 	case *ast.UnhygienicNode:
 		return c.checkPatternUnhygienicNode(n, matchedType)
+	case *ast.UnquoteNode:
+		// an unquote that has not been spliced, i.e. used outside of a quote
+		c.addFailure(
+			"unquote expressions cannot appear in this context",
+			n.Location(),
+		)
+		n.SetType(types.Untyped{})
+		return n, types.Untyped{}
 	default:
 		panic(fmt.Sprintf("invalid pattern node %T", node))
 	}
